@@ -1,6 +1,7 @@
 """C17 - column administration and option checks never touch other columns' data (structural part)."""
 import re
 import core, lib
+from props import shared
 from core import call_matches, call_names, op_place, op_local, backward_slice
 
 LEVEL = 'proof'
@@ -169,6 +170,7 @@ def run(ctx):
                 sl = backward_slice(cab, [op_place(a[1])])
                 ok = any(bi in nd for bi, _ in sl.call_sites) and not (sl.binops - {'Not'})
         ctx.ob('3s3 full-clean-truncates-all-dirty-logs', 'K4-provenance', cab.path, 'clean_all_logs asks Log::clean_logs for exactly num_dirty_logs() truncations (no log is kept)', ok and bool(cl), '')
+    shared.metadata_replaced_atomically(ctx, '2m')    # add_column / drop_last_column / reset_column rewrite the metadata of a populated database
     # ------------------------------------------------ 4. administration touches only its column
     df = ctx.body('column::Column::drop_files')
     if df:
